@@ -104,14 +104,16 @@ func assignIDs(er *estargz.Reader, e *estargz.TOCEntry) (rootID uint32, idMap ma
 
 		var ok bool
 		id, ok := idOfEntry[e.Name]
-		if !ok {
-			id, err = nextID()
-			if err != nil {
-				return 0, err
-			}
-			idMap[id] = e
-			idOfEntry[e.Name] = id
+		if ok {
+			// Already visited (reachable through several names): don't walk the children again.
+			return id, nil
 		}
+		id, err = nextID()
+		if err != nil {
+			return 0, err
+		}
+		idMap[id] = e
+		idOfEntry[e.Name] = id
 
 		e.ForeachChild(func(_ string, ent *estargz.TOCEntry) bool {
 			_, err = mapChildren(ent)
